@@ -126,6 +126,13 @@ def run(ctx):
     from .c02 import never_crossed
     never_crossed(ctx, m)
 
+    # ---------------------------------------------------------------- the flag is read when the order ARRIVES
+    # a market order is rejected iff trading is disabled at placement: creation decides nothing (an order created while
+    # disabled and placed after re-enabling matches), and Rejected is written only under `trading == false` in place_order
+    from .c10 import creation_outcome_rules
+    from .c04 import rejected_rules
+    creation_outcome_rules(ctx, m, rule="arrival")
+    rejected_rules(ctx, m, rule="arrival")
     # ---------------------------------------------------------------- flag writers
     en, dis = m.book_fn("enable_trading"), m.book_fn("disable_trading")
     for f, val in ((en, 1), (dis, 0)):
